@@ -26,7 +26,7 @@ func init() {
 		ID: "C07", Level: "fault_enumeration", Primary: "fault_placements", EvalCount: "faults_injected",
 		Rule: "faults = handler panic (the panic value cycles through string, error, int, struct, pointer, byte slice and two runtime errors) in every operation kind (concurrently dispatched bind/search/modify/add/delete/extended; inline StartTLS; inline unbind; default route), each alone, after earlier requests, and " +
 			"while sibling handlers of the same connection are still running; connection reset mid-frame; truncated frame + FIN; malformed / undecodable frames (incl. inputs that used to panic the decoder); a client that stops " +
-			"reading a large response and resets (failed write) or is held; storms of hundreds of recovered panics; a StartTLS upgrade while an earlier request of the connection is still in its handler; the structural mutations (children dropped/doubled/swapped/truncated, tag/class/length corruptions) of the canonical requests; established ldaps sessions that vanish (reset, mid-frame reset, bare FIN, reset with a request unanswered); TLS handshakes stalled and held on a TLS listener; the panic faults again on a server whose logger is switched off; descriptor exhaustion at accept (RLIMIT_NOFILE lowered until accept4 returns EMFILE); 300 (thorough 3000) abruptly ended connections in a row under a descriptor limit with room for 40. Each fault is placed within continuous verified traffic on bystander " +
+			"reading a large response and resets (failed write) or is held; storms of hundreds of recovered panics; 24 clients whose connections fail at the same moment, 25 times over; a StartTLS upgrade while an earlier request of the connection is still in its handler; the structural mutations (children dropped/doubled/swapped/truncated, tag/class/length corruptions) of the canonical requests; established ldaps sessions that vanish (reset, mid-frame reset, bare FIN, reset with a request unanswered); TLS handshakes stalled and held on a TLS listener; the panic faults again on a server whose logger is switched off; descriptor exhaustion at accept (RLIMIT_NOFILE lowered until accept4 returns EMFILE); 300 (thorough 3000) abruptly ended connections in a row under a descriptor limit with room for 40. Each fault is placed within continuous verified traffic on bystander " +
 			"connections and followed by a fresh-connection probe. distinct_nontrivial = distinct (fault kind, placement) pairs injected while at least one bystander operation overlapped or followed",
 		Assume: []string{"the server runs in a child process; its death, or Run returning while not stopped, is observed by the supervisor / the harness",
 			"the faulted connection itself may die; only bystanders, new connections and the process are asserted"},
@@ -36,14 +36,14 @@ func init() {
 				// not depend on whether anybody listens to its log)
 				{Name: "faults-silent-logger", Run: func(c *Ctx) { c07Silent = true; c07Faults(c) }, Crash: c07Crash}}
 		},
-		MinObserved: []string{"faults_injected", "bystander_ops_verified", "bystander_ops_overlapping_or_after_a_fault", "new_connection_probes", "emfile_accept_failures_provoked", "probes_served_while_a_handshake_is_stalled", "mutated_frames_fed", "handler_panics_with_a_value_that_is_neither_string_nor_error", "abruptly_ended_connections_under_a_tight_descriptor_limit", "connections_upgraded_while_a_request_was_in_flight", "panic_faults_injected_on_a_server_whose_logger_is_off"},
+		MinObserved: []string{"faults_injected", "bystander_ops_verified", "bystander_ops_overlapping_or_after_a_fault", "new_connection_probes", "emfile_accept_failures_provoked", "probes_served_while_a_handshake_is_stalled", "mutated_frames_fed", "handler_panics_with_a_value_that_is_neither_string_nor_error", "abruptly_ended_connections_under_a_tight_descriptor_limit", "connections_upgraded_while_a_request_was_in_flight", "panic_faults_injected_on_a_server_whose_logger_is_off", "connections_failing_at_the_same_moment"},
 	})
 }
 
 var c07Kinds = []string{
 	"panic-bind", "panic-search", "panic-modify", "panic-add", "panic-delete", "panic-extended",
 	"panic-starttls", "panic-unbind", "panic-default",
-	"reset-midframe", "truncated-fin", "malformed", "former-decode-panic", "stop-reading-then-reset", "stalled-reader-held", "storm-of-panics", "mutated-frames", "abandon-flood", "inflight-across-starttls",
+	"reset-midframe", "truncated-fin", "malformed", "former-decode-panic", "stop-reading-then-reset", "stalled-reader-held", "storm-of-panics", "mutated-frames", "abandon-flood", "inflight-across-starttls", "simultaneous-faults",
 }
 
 var (
@@ -333,6 +333,37 @@ func c07Inject(c *Ctx, srv *Srv, cs c07Case, r *Rand) {
 		if upgraded {
 			c.Count("connections_upgraded_while_a_request_was_in_flight", 1)
 		}
+	case cs.Kind == "simultaneous-faults":
+		// many connections ending in an error at the same moment (malformed frames, resets in the middle of a frame,
+		// half frames + FIN): whatever the server keeps about failing connections, it keeps it safely
+		var fw sync.WaitGroup
+		for g := 0; g < 24; g++ {
+			fw.Add(1)
+			go func(g int) {
+				defer fw.Done()
+				for k := 0; k < 25; k++ {
+					cn, err := net.DialTimeout("tcp", srv.Addr, 2*time.Second)
+					if err != nil {
+						return
+					}
+					switch (g + k) % 3 {
+					case 0:
+						cn.Write([]byte{0x30, 0x03, 0x02, 0x01, 0x01})
+					case 1:
+						f := c07Search(7, "tag=5")
+						cn.Write(f[:len(f)/2])
+						cn.(*net.TCPConn).SetLinger(0)
+					default:
+						cn.Write([]byte{0x30, 0x84, 0x00, 0xff, 0xff, 0xff, 0x02})
+					}
+					cn.SetReadDeadline(time.Now().Add(20 * time.Millisecond))
+					cn.Read(make([]byte, 64))
+					cn.Close()
+				}
+			}(g)
+		}
+		fw.Wait()
+		c.Count("connections_failing_at_the_same_moment", 24*25)
 	case cs.Kind == "reset-midframe":
 		f := c07Search(id, "tag=5")
 		cl.Send(f[:len(f)/2])
